@@ -91,6 +91,9 @@ pub fn custom(m: Method, fa: f64, ia: f64) -> Params {
 
 pub fn explore(ctx: &Ctx) {
     // call sequences from non-initial states (see history.rs)
+    if ctx.tier == Tier::Thorough {
+        crate::history::explore(ctx, "policy_full", &crate::history::alphabet_policy_full(), 2);
+    }
     crate::history::explore(ctx, "policy", &crate::history::alphabet_policy(), 2);
     let quick = ctx.tier == Tier::Quick;
     ctx.rule("every (site, date, params, rounding) enumerated once; non-trivial = all seven entries exist and the full order chain was judged");
